@@ -369,6 +369,32 @@ class C09(E2Prop):
                     return 'key-sequence: frame %d uses key %s, oracle key is %s' % (i, f.key.hex(), ws.mask_key(case.seed, i).hex())
         return None
 
+def _kv(trace):
+    return dict(x.split('=') for x in trace.split(' ') if '=' in x)
+
+def c09_nohook_cases(self, tier):
+    n = 4096 if tier == 'quick' else 32768
+    return ['KS ks_c c %d' % n, 'KS ks_s s 200']
+def c09_nohook_monitor(self, case_line, trace):
+    f = case_line.split(' ')
+    kv = _kv(trace)
+    if not kv or kv.get('hook') != 'false':
+        return 'key-stats: hook-off build did not run (%s)' % trace[:60]
+    n = int(kv['frames'])
+    if f[2] == 'c':
+        if int(kv['masked']) != n or int(kv['unmasked']) != 0:
+            return 'key-stats: %s of %d client frames masked' % (kv['masked'], n)
+        if int(kv['distinct']) < n - 1:
+            return 'key-not-fresh: only %s distinct mask keys in %d client frames (real RNG, hook off)' % (kv['distinct'], n)
+        if min(int(x) for x in kv['bytevals'].split(',')) <= 200:
+            return 'key-not-fresh: a key byte position takes only %s distinct values over %d frames' % (kv['bytevals'], n)
+    else:
+        if int(kv['masked']) != 0:
+            return 'key-stats: server frames masked'
+    return None
+C09.nohook_cases = c09_nohook_cases
+C09.nohook_monitor = c09_nohook_monitor
+
 class C10(E2Prop):
     id = 'C10'
     rule = ('message sequences x per-call write outcomes: accept k of n for every k on frames <= 12 bytes (exhaustive), random k on larger, WouldBlock runs 0-3 at every call index, '
